@@ -25,7 +25,7 @@ EXHAUSTIVE_NOTE = {"quick": "all 39 histories of length <= 3 over {M1, M2, reset
                    "thorough": "all 363 histories of length <= 5 over {M1, M2, reset} for every k in 1..4 and max_norm in {0,0.5,1,10}"}
 ASSUMPTIONS = ["weights recovered by least squares (matrices have full row rank)", "ECOS is deterministic (outputs compared to 1e-9)"]
 MAXLEN = {"quick": 3, "thorough": 5}
-RANDOM = {"quick": 160, "thorough": 4000}
+RANDOM = {"quick": 160, "thorough": 12000}
 KS = [1, 2, 3, 4]
 NORMS = [0.0, 0.5, 1.0, 10.0]
 
